@@ -75,9 +75,10 @@ Definition lev_ev (e : lev) : ev := match e with LDev e' => e' | LMidi _ => ESyn
    velocity 0 switch it off; anything else leaves it *)
 Definition spec_ext1 (x : ext) (m : msg) : ext :=
   match m with
-  | [st; n; v] =>
+  | st :: n :: rest =>
       let ch := st mod 16 in
-      if st / 16 =? 9 then (if v =? 0 then srem pair_eqb (n, ch) x else sadd pair_eqb (n, ch) x)
+      let vel0 := match rest with v :: _ => v =? 0 | [] => false end in    (* a truncated Note On carries no velocity 0 *)
+      if st / 16 =? 9 then (if vel0 then srem pair_eqb (n, ch) x else sadd pair_eqb (n, ch) x)
       else if st / 16 =? 8 then srem pair_eqb (n, ch) x
       else x
   | _ => x
